@@ -23,7 +23,7 @@ Definition cdiv (a b : nat) : nat := (a + b - 1) / b.
 Definition num_out (n : nspec) (len : nat) : nat :=
   match n with NInt k => k | NFrac a l => cdiv (a * len) (2 ^ l) | NNone => len end.
 (* weighting functions of the pool: lambda xs: [1.0] * len(xs)   /   lambda xs: [get_fitness(x) + 0.25 for x in xs] *)
-Inductive wfn := WConst | WFit.
+Inductive wfn := WConst | WFit | WFitRaw.      (* ... / lambda xs: [get_fitness(x) for x in xs]  (the fitness itself as weight) *)
 Definition weights_of (w : wfn) (l : list item) : res (list Z) :=
   match w with
   | WConst => Ok (map (fun _ => 64%Z) l)
@@ -33,6 +33,12 @@ Definition weights_of (w : wfn) (l : list item) : res (list Z) :=
                          | Some fs => Ok (map (fun f => (f + 16)%Z) fs)
                          | None => Err EKey end
             end
+  | WFitRaw => match its l with
+               | None => Err EType
+               | Some is => match opt_list (map ifit is) with
+                            | Some fs => Ok fs
+                            | None => Err EKey end
+               end
   end.
 
 Inductive selector :=
